@@ -89,7 +89,12 @@ where
         let r = match self.0 {
             Inner::Dead => return Err(io::Error::new(io::ErrorKind::BrokenPipe, "body is dead")),
             Inner::Raw(ref mut w) => w.flush(),
-            Inner::Gzipped(ref mut w) => w.flush(),
+            // flate2 asks the encoder for the sync flush only once, and the request is lost when
+            // compressed output is still pending inside the encoder, as it is right after a
+            // partially accepted `write`: part of the data then stays undecodable by the client.
+            // The first flush drains the pending output, the second one syncs (at the cost of a
+            // few bytes when the first one already did).
+            Inner::Gzipped(ref mut w) => w.flush().and_then(|()| w.flush()),
         };
         if r.is_err() {
             self.0 = Inner::Dead;
